@@ -11,7 +11,7 @@ use flsrc::search::Searcher;
 use refchess::{Color, Kind, Mv, Pos};
 use serde_json::{json, Value};
 
-pub const RULE: &str = "two families, preconditions constructed and verified with the reference: (M) positions where the mover has >=1 mating move (heavy-piece vs exposed-king constructions, retractions of one move from generated checkmates, perturbed mate shapes incl. back-rank/smothered/pawn/promotion mates, plus whatever the general mixture contains), searched with find_best_move on a fresh Searcher at depth 1..4: the returned move must be in Mates(p) = legal moves after which the opponent is in check with no legal move; (D) positions where some legal moves allow a mate in one and at least one does not, searched at depth 2..3: the returned move must not be in Allows(p) = { m : Mates(p·m) != {} }. Positions whose search exceeds the node watchdog are excluded and counted. Non-trivial: (M) >=2 legal moves and >=1 non-mating move; (D) >=3 legal moves (both classes non-empty by construction); distinct by (FEN, depth).";
+pub const RULE: &str = "two families, preconditions constructed and verified with the reference: (M) positions where the mover has >=1 mating move (heavy-piece vs exposed-king constructions, retractions of one move from generated checkmates, perturbed mate shapes incl. back-rank/smothered/pawn/promotion mates, plus whatever the general mixture contains), searched with find_best_move on a fresh Searcher at depth 1..4: the returned move must be in Mates(p) = legal moves after which the opponent is in check with no legal move; Part 'grid-mates' (enumerated; quick tier: a seed-dependent stratified share, thorough: all): items of the check-geometry grid with one of their checking moves turned into a mate by boxing the checked king in with men of its own side (kept only when the reference confirms the mate): mates by en-passant capture (direct and through the captured pawn's square), castling, promotion and under-promotion, discovery by every kind of blocker, and every single man, searched at depth 1..3. (D) positions where some legal moves allow a mate in one and at least one does not, searched at depth 2..3: the returned move must not be in Allows(p) = { m : Mates(p·m) != {} }. Positions whose search exceeds the node watchdog are excluded and counted. Non-trivial: (M) >=2 legal moves and >=1 non-mating move; (D) >=3 legal moves (both classes non-empty by construction); distinct by (FEN, depth).";
 
 pub fn mates(p: &Pos) -> Vec<Mv> {
     p.legal_moves().into_iter().filter(|m| p.make(*m).is_mate()).collect()
@@ -289,6 +289,106 @@ pub fn judge_d(p: &Pos, d: u8, kind: &str, stats: &mut Stats) -> Verdict {
     Ok(())
 }
 
+/// Mate-in-one positions for EVERY kind of checking move: an item of the check-geometry grid
+/// (grid.rs), one of its checking moves, and the checked king boxed in by men of its own side on
+/// its flight squares (several patterns of blocker kinds are tried; the result is kept only when the
+/// reference confirms that the move mates).  Yields mates by en-passant capture (direct and through
+/// the square of the captured pawn), by castling, by promotion and under-promotion (also backwards
+/// through the vacated square), by discovery with every kind of blocker, and by every single man.
+fn grid_mates(it: &crate::grid::GridItem) -> Vec<(Pos, Mv, &'static str)> {
+    let mut out = Vec::new();
+    let Some(p) = crate::grid::build(it) else { return out };
+    for m in p.legal_moves() {
+        let n = p.make(m);
+        if !n.in_check() {
+            continue;
+        }
+        let i = p.info(m);
+        // the en-passant family is here for its en-passant captures (its other checks are those of families 0 and 1)
+        if it.fam == 3 && !i.ep {
+            continue;
+        }
+        let via_victim_only = i.ep && {
+            let k = n.king_sq(n.stm).unwrap();
+            let victim = refchess::sq_of(refchess::file_of(m.to), refchess::rank_of(m.from)).unwrap();
+            let att = n.attackers(k, p.stm);
+            // every checker looks at the king through the square the captured pawn stood on
+            !att.is_empty() && att.iter().all(|a| {
+                let (df, dr) = ((refchess::file_of(k) - refchess::file_of(*a)).signum(), (refchess::rank_of(k) - refchess::rank_of(*a)).signum());
+                let mut f = refchess::file_of(*a) + df;
+                let mut r = refchess::rank_of(*a) + dr;
+                let mut through = false;
+                while let Some(sq) = refchess::sq_of(f, r) {
+                    if sq == k {
+                        break;
+                    }
+                    if sq == victim {
+                        through = true;
+                    }
+                    f += df;
+                    r += dr;
+                }
+                through && *a != m.to
+            })
+        };
+        let kind = if via_victim_only { "ep_discovering_through_the_captured_pawns_square" } else if i.ep { "ep" } else if i.castle { "castle" } else if i.promo { if m.promo == Some(Kind::Q) { "promotion" } else { "underpromotion" } } else if n.attackers(n.king_sq(n.stm).unwrap(), p.stm).iter().any(|a| *a != m.to) { "discovered" } else { "direct" };
+        if n.is_mate() {
+            out.push((p.clone(), m, kind));
+            continue;
+        }
+        let def = n.stm;
+        // flight squares: empty squares the king can legally step to (a king that can capture its
+        // way out cannot be boxed in by its own men)
+        let k = n.king_sq(def).unwrap();
+        let evasions = n.legal_moves();
+        if evasions.iter().any(|e| e.from != k || n.sq[e.to as usize].is_some()) {
+            continue;
+        }
+        let flights: Vec<u8> = evasions.iter().map(|e| e.to).collect();
+        let patterns: [&[Kind]; 5] = [&[Kind::P], &[Kind::N], &[Kind::B], &[Kind::R], &[Kind::P, Kind::N, Kind::B, Kind::R]];
+        for pat in patterns {
+            let mut q = p.clone();
+            let mut ok = true;
+            for (j, f) in flights.iter().enumerate() {
+                let mut kd = pat[j % pat.len()];
+                if kd == Kind::P && (*f < 8 || *f >= 56) {
+                    kd = Kind::N;
+                }
+                if q.sq[*f as usize].is_some() {
+                    ok = false;
+                    break;
+                }
+                q.sq[*f as usize] = Some((def, kd));
+            }
+            if !ok || !q.is_valid() || !q.legal_moves().contains(&m) {
+                continue;
+            }
+            if q.make(m).is_mate() {
+                out.push((q, m, kind));
+                break;
+            }
+        }
+    }
+    out
+}
+
+fn judge_grid(it: &crate::grid::GridItem, stats: &mut Stats) -> Verdict {
+    eng::set_counter_wish(0, 1);
+    let found = grid_mates(it);
+    if found.is_empty() {
+        stats.exclude("grid item without a checking move that can be turned into a mate");
+        return Ok(());
+    }
+    let h = crate::stats::hash_of(it);
+    for (j, (p, m, kind)) in found.iter().enumerate() {
+        let d = 1 + ((h >> (4 * j)) % 3) as u8;
+        stats.class(&format!("G_mate_by_{}", kind));
+        let _ = m;
+        judge_m(p, d, "grid", stats)?;
+    }
+    Ok(())
+}
+
 pub fn run(tier: Tier, seed: u64, known: &Known) -> PropRun {
     let mut run = PropRun::new("exploration", RULE);
     run.assumptions = vec![
@@ -296,6 +396,25 @@ pub fn run(tier: Tier, seed: u64, known: &Known) -> PropRun {
         "searches run in-process through the public find_best_move on a fresh Searcher".into(),
     ];
     let parts: [(&str, u64, usize, fn(&[u8], &mut Stats) -> Verdict); 2] = [("M", tier.pick(30_000, 1_000_000), 300, part_m), ("D", tier.pick(16_000, 500_000), 400, part_d)];
+    // enumerated part first: mates by every kind of checking move (boxed check-geometry grid); the
+    // quick tier takes a seed-dependent stratified share of the grid, the thorough tier all of it
+    let all = crate::grid::items();
+    let share = |it: &crate::grid::GridItem| -> u64 {
+        match it.fam {
+            2 => 1,
+            4 => u64::MAX,
+            3 => tier.pick(3, 1),
+            _ => tier.pick(10, 1),
+        }
+    };
+    let items: Vec<crate::grid::GridItem> = all.into_iter().filter(|it| (crate::stats::hash_of(it) ^ seed) % share(it) == 0).collect();
+    run.stats.class_n("G_grid_items_taken", items.len() as u64);
+    let (st, fail) = crate::runner::run_enumerated("grid-mates", &items, threads(), seed, known, |it, st| judge_grid(it, st));
+    run.stats.merge(st);
+    if fail.is_some() {
+        run.failure = fail;
+        return run;
+    }
     for (name, cases, max_len, f) in parts {
         let part = Part { name, cases, min_len: 16, max_len, max_shrink: 300, threads: threads() };
         let (st, fail) = run_part(&part, seed, known, f);
